@@ -118,26 +118,29 @@ class FMMULock:
                                              | os.O_EXCL | os.O_CLOEXEC)
         except FileExistsError:
             self.fd = os.open(self.filename, os.O_RDWR | os.O_CLOEXEC)
-            fcntl.lockf(self.fd, fcntl.LOCK_EX)
-            try:
-                addrmap = os.pread(self.fd, 1 << 6, 0)
-                if len(addrmap) != (1 << 6):
-                    logging.warn('found wrong fmmu map, ignoring')
-                    addrmap = b'\0' * (1 << 6)
-                    os.pwrite(self.fd, addrmap, 0)
-                    os.ftruncate(self.fd, 1 << 6)
-                addr = randrange(1, 1 << 9)
-                while addrmap[addr // 8] & (1 << (addr % 8)):
-                    addr = randrange(1, 1 << 9)
-                out = bytes([addrmap[addr // 8] | (1 << (addr % 8))])
-                no = os.pwrite(self.fd, out, addr // 8)
-                assert no == 1
-                self.base_addr = addr << (12 + 10)
-            finally:
-                fcntl.lockf(self.fd, fcntl.LOCK_UN)
+            created = False
         else:
-            os.write(self.fd, b'\2' + b'\0' * 63)
-            self.base_addr = 1 << (12 + 10)
+            created = True
+        # the creator allocates under the lock as well: a concurrent opener
+        # may have initialized the map and taken an address meanwhile
+        fcntl.lockf(self.fd, fcntl.LOCK_EX)
+        try:
+            addrmap = os.pread(self.fd, 1 << 6, 0)
+            if len(addrmap) != (1 << 6):
+                if not created:
+                    logging.warn('found wrong fmmu map, ignoring')
+                addrmap = b'\0' * (1 << 6)
+                os.pwrite(self.fd, addrmap, 0)
+                os.ftruncate(self.fd, 1 << 6)
+            addr = 1 if created else randrange(1, 1 << 9)
+            while addrmap[addr // 8] & (1 << (addr % 8)):
+                addr = randrange(1, 1 << 9)
+            out = bytes([addrmap[addr // 8] | (1 << (addr % 8))])
+            no = os.pwrite(self.fd, out, addr // 8)
+            assert no == 1
+            self.base_addr = addr << (12 + 10)
+        finally:
+            fcntl.lockf(self.fd, fcntl.LOCK_UN)
 
     def get_next_addr(self):
         self.base_addr += 1 << 12
